@@ -71,6 +71,7 @@ class Env:
         self.runners = {}
         self.labels = collections.Counter()
         self.cache = {}
+        self.job_seed = 0        # lets a strategy fix an expensive-to-switch parameter (curve) per job
 
     def runner(self, cfg, **kw):
         r = self.runners.get(cfg)
@@ -148,6 +149,7 @@ def _run_job(job):
     mod = importlib.import_module(job["module"])
     target = [t for t in mod.TARGETS if t.name == job["target"]][0]
     env = Env()
+    env.job_seed = job["seed"]
     known = Known(mod)
     out = dict(target=target.name, cfg=job["cfg"], evaluations=0, nontrivial=set(), labels=None, samples=[],
                failure=None, excluded=collections.Counter(), unsupported=0, crashes=0, error=None, wall=0.0,
